@@ -379,8 +379,7 @@ def _check_image(ctx, d, ds, fr, reqs, pending):
                 ctx.fail({'image': d, 'path': name, 'after': 'refused batch [1, n+1]', 'call': what},
                          f'valid request after a refused one: {val if st != "ok" else "wrong frame"}', site=what + '/after-refusal')
         # ---- results are values: editing a frame that was handed out (windowing, masking in place) must not change what
-        # the next fetch of the same frame returns.  Only on the path that decodes per request; once `pixel_array` is
-        # cached, frames are documented views of that array.
+        # the next fetch of the same frame returns (here on the path that decodes per request; the cached branch further down).
         for idx in sorted({0, n - 1}):
             for what, f in (('get_stored_frame', lambda: im.get_stored_frame(idx + 1)),
                             ('get_stored_frames', lambda: im.get_stored_frames([idx + 1])[0])):
@@ -426,6 +425,34 @@ def _check_image(ctx, d, ds, fr, reqs, pending):
                     reqs.append(('memFrameBits', {'pd': list(ds.PixelData), 'rows': d['rows'], 'cols': d['cols'], 'samples': 1,
                                                   'n': n, 'k': k, 'as_index': as_index}))
                     pending.append((case, ('ok', [bool(x) for x in np.asarray(val).reshape(-1)])))
+            # results are values on the cached branch too: edit the frame that was handed out, fetch again
+            for idx in sorted({0, n - 1}):
+                for what, f in (('get_stored_frame', lambda: im.get_stored_frame(idx if as_index else idx + 1, as_index=as_index)),
+                                ('get_stored_frames', lambda: im.get_stored_frames([idx if as_index else idx + 1], as_indices=as_index)[0]),
+                                ('get_frame', lambda: im.get_frame(idx if as_index else idx + 1, as_index=as_index, dtype=np.asarray(ref).dtype,
+                                                                   **_NO_TRANSFORMS))):
+                    st, a = _fetch(f)
+                    if st != 'ok':
+                        continue
+                    a = np.asarray(a)
+                    ctx.case(path=name + '/cached-edit-result', result_editable=bool(a.flags.writeable))
+                    if not a.flags.writeable:
+                        continue
+                    try:
+                        if a.dtype == bool:
+                            np.logical_not(a, out=a)
+                        else:
+                            np.bitwise_xor(a, 1, out=a)
+                    except Exception:  # noqa: BLE001
+                        continue
+                    for what2, f2 in (('get_stored_frame', lambda: im.get_stored_frame(idx + 1)),
+                                      ('get_stored_frames', lambda: im.get_stored_frames([idx + 1])[0])):
+                        st, b = _fetch(f2)
+                        if st != 'ok' or not np.array_equal(np.asarray(b).astype(np.int64), ref[idx].astype(np.int64)):
+                            ctx.fail({'image': d, 'path': name + '/cached', 'call': what, 'then': what2, 'frame': idx + 1, 'as_index': as_index,
+                                      'history': 'pixel_array accessed, fetch, edit the result in place, fetch again'},
+                                     'a later fetch returns the edited pixels (the result shared memory with the cached array)'
+                                     if st == 'ok' else f'second fetch refused: {b}', site=what + '/cached-edit-result')
             # which stored frame does the cached branch hand out?  (identified by content when frames are pairwise distinct)
             distinct = all(not np.array_equal(ref[a], ref[b]) for a in range(n) for b in range(a + 1, n))
             if distinct:
@@ -1152,6 +1179,15 @@ def _histories(ctx, reqs, pending):
                                  if stq == 'ok' else f'in-range fetch refused: {v}', site='get_stored_frame/history')
                 elif stq == 'ok':
                     ctx.fail({'history': d, 'ops': ops}, 'out-of-range fetch accepted', site='get_stored_frame/history')
+                if stq == 'ok' and 0 <= i0 < n and r.random() < 0.4 and np.asarray(v).flags.writeable:
+                    # the caller edits, in place, the frame it was handed: no later read of the object may notice
+                    a_ = np.asarray(v)
+                    if a_.dtype == bool:
+                        np.logical_not(a_, out=a_)
+                    else:
+                        np.bitwise_xor(a_, 1, out=a_)
+                    ops.append({'op': 'scribble', 'i': i0})
+                    ctx.case(path='history/scribble', history_step='write-into-result')
             elif u < 0.75:
                 stq, v = _fetch(lambda: im.pixel_array)
                 ops.append({'op': 'whole'})
